@@ -92,3 +92,21 @@ func vfLimMintSession(t *TraefikOidc, email, idToken string) ([]*http.Cookie, er
 	}
 	return rec.Result().Cookies(), nil
 }
+
+// vfLimMintSessionRT: as vfLimMintSession, with a refresh token
+func vfLimMintSessionRT(t *TraefikOidc, email, idToken, refreshToken string) ([]*http.Cookie, error) {
+	req, _ := http.NewRequest("GET", "http://mint.invalid/", nil)
+	sd, err := t.sessionManager.GetSession(req)
+	if err != nil {
+		return nil, err
+	}
+	sd.SetAuthenticated(true)
+	sd.SetEmail(email)
+	sd.SetAccessToken(idToken)
+	sd.SetRefreshToken(refreshToken)
+	rec := httptest.NewRecorder()
+	if err := sd.Save(req, rec); err != nil {
+		return nil, err
+	}
+	return rec.Result().Cookies(), nil
+}
